@@ -171,6 +171,17 @@ def r05_4(ctx, rep):
            "inherited and own symbols must be merged with symbols.update(<class>.symbols) (keeps the declaration keys); found %s" % merges)
 
 
+@SPEC.rule(
+    "R05.5",
+    "premise of the ownership analysis — deep copies are fresh: the only object a __deepcopy__ hook of ast.py keeps by "
+    "reference (pre-seeds in the memo) is the parent link (same rule as R06.7; the analysis models exactly that sharing)",
+)
+def r05_5(ctx, rep):
+    from .c06 import kept_by_reference
+
+    kept_by_reference(ctx, rep, "R05.5")
+
+
 # -- seeded variants ---------------------------------------------------------
 from ._mut import replace_in_func  # noqa: E402
 
